@@ -16,11 +16,15 @@ TRUSTED = [
     "the two bases evaluated through bempp-cl's own evaluate()",
 ]
 ASSUMPTIONS = [
-    "The hand model of the dual0/dual1 coefficient loops is tied by correspondence (tie H), not by translation",
-    "BC/RBC coefficient construction (grid.py 1495-1825) is not modelled in Coq; only exercised on the implementation "
-    "(normal/tangential continuity on the barycentric grid, RBC = n x BC, mixed mass matrices)",
-    "Mixed mass exactness is proved per barycentric element for the order actually used (degree-2 integrands, C12 "
-    "tri_exact) under the sparse-congruence hypothesis of C04/C13; the assembled matrices are only tested",
+    "The hand models of the dual0/dual1 coefficient loops, of the BC/RBC coefficient stage and of the connectivity memo loop are "
+    "tied by correspondence (tie H); the BC stage is additionally pinned to the source text by the translator",
+    "BC/RBC: the ordered vertex fans (enumerate_vertex_adjacent_elements, _get_barycentric_edges_associated_to_vertex, "
+    "_sort_vertex_edges) and the choice of upper/lower cells in _compute_bc_space_data are inputs of the model; the hypotheses "
+    "of the flux theorems are checked on the recorded fans in every run, the fan ordering itself is only exercised",
+    "DUAL1: soundness and non-overlap of the entries are proved; completeness (every documented node receives its entry) is "
+    "corresponded and searched",
+    "Mixed mass: composition X' M X = quadrature of products (abstract ring), pointwise representation (Q / R) and exactness of "
+    "the rule (Q) are three theorems over different carriers, not merged into one formula",
     "1/3-style table constants are taken as exact rationals; the doubles differ by <= 1 ulp (covered by the tolerance)",
 ]
 
@@ -48,7 +52,7 @@ PARTS = (["geometry", "tables", "pointwise", "dual", "bc"], ["bcmodel", "mass_sc
 
 def _start_harness(ctx, strength):
     """Three harness processes in parallel (numba JIT of the scalar and of the vector sparse assemblers dominates)."""
-    ex = ThreadPoolExecutor(max_workers=3)
+    ex = ThreadPoolExecutor(max_workers=4)
     to = 3600 if strength == "thorough" else 1200
     return ex, [ex.submit(ctx.run_impl, "c10_impl.py", {"strength": strength, "parts": p}, to, 4) for p in PARTS]
 
@@ -84,8 +88,12 @@ def correspond(ctx):
     strength = "thorough" if ctx.tier == "thorough" else "quick"
     ex, futs = _start_harness(ctx, strength)
     ctx.impl = (futs, strength)
+    # the BC coefficient model is evaluated (in its own coqc) as soon as the second process is done, in parallel
+    bc_future = ex.submit(lambda: _correspond_bc(ctx, futs[1].result()))
+    ctx.bc_future = bc_future
     ra = futs[0].result()            # the mass-matrix processes keep running while the model is evaluated in Coq
     if ra is None:
+        bc_future.result()
         return
     geom, tabs, duals = ra.get("geom_cases", []), ra.get("table_cases", []), ra.get("dual_cases", [])
     conns = ra.get("conn_cases", [])
@@ -163,7 +171,7 @@ def correspond(ctx):
         for i in [int(x) for x in re.findall(r'\d+', blk)]:
             ctx.corr["disagreements"] += 1
             ctx.problem("correspondence", "model and implementation disagree on %s: %s" % (nm, desc(cases[i])))
-    _correspond_bc(ctx, futs[1].result())
+    bc_future.result()
 
 
 def _slots(l):
@@ -245,6 +253,8 @@ def _collect(ctx, res):
 
 def search(ctx, strength):
     impl = getattr(ctx, "impl", None)
+    if getattr(ctx, "bc_future", None) is not None:
+        ctx.bc_future.result()
     first = [f.result() for f in impl[0]] if impl is not None else []
     if impl is None or (strength == "thorough" and impl[1] != "thorough"):
         # proofs/tie/correspondence broke in the quick tier: search again at thorough strength (keep what was found)
@@ -267,12 +277,15 @@ META = {
                   "maxwell_spaces.py, scalar_dual_spaces.py, shapesets.py: the six children of an element have the stated "
                   "vertices, orientation and 1/6 of the area for every geometry; DP0 map for every support size; RWG/SNC tables "
                   "with the length ratios of generate_rwg0_map reproduce every coarse function on every child for every "
-                  "non-degenerate triangle in R^3 and every point; P1: the positive theorem conditional on the table sweep, "
-                  "and on the unchanged tree the refutation (table shifted by one child) with the exact characterisation of "
-                  "what the shipped table represents; dual index lists address the documented nodes (DUAL1 barycentre list "
-                  "refuted). Mixed mass matrices and BC/RBC are exercised on the implementation only.",
+                  "non-degenerate triangle in R^3 and every point; P1: complete sweep of the table (entries = shape function at the child "
+                  "vertices) and pointwise agreement for every coefficient vector and point; dual index lists address the documented nodes; DUAL0 entries exact, DUAL1 entries "
+                  "sound and non-overlapping for every grid and valence; connectivity memo loop (vertex sharing) for all grids; BC "
+                  "coefficient stage: opposite fluxes on the two sides of every spoke / reference edge for every valence, RBC = n x BC; "
+                  "mixed mass matrix = quadrature of the product of the represented functions (sparse-assembler model of C04/C13) and "
+                  "per-element exactness of the rule.",
     "level_note": "Trusted: Coq kernel + vm_compute; translators/bary_tables.py (AST shape match, fails closed); correspondence "
-                  "harness; IEEE arithmetic. Over R the three standard real-number axioms. Not proved: BC/RBC coefficient "
-                  "construction, assembled mixed mass matrices (only their per-element quadrature exactness).",
+                  "harness; IEEE arithmetic. Over R the three standard real-number axioms. Not proved: ordering of the BC "
+                  "vertex fans (inputs of the model, hypotheses checked per run), DUAL1 completeness, the merge of the three "
+                  "mixed-mass statements into one formula.",
     "design_ref": "DESIGN.md §7 C10",
 }
